@@ -1066,7 +1066,7 @@ def exhaustive_cases(depth):
 
 def gen_cases(seed, tier):
     rng = random.Random(seed * 1000003 + 18)
-    per_kind = {'quick': 1200, 'thorough': 15000, 'search': 15000}[tier]
+    per_kind = {'quick': 1200, 'thorough': 10000, 'search': 10000}[tier]
     cases = []
     for kind in ('st', 'fe', 'li', 'co'):
         cases.extend(rand_case(rng, kind) for _ in range(per_kind))
